@@ -616,6 +616,9 @@ def _view_one(idx):
     case = _VCASES[idx]
     doc = _VDOCS[case["doc"] - 1]
     view = case["view"]
+    if idx % 4 == 1 and view["S"]:
+        # a species set is a set: naming a label twice (in any position) changes nothing
+        view = dict(view, S=list(view["S"]) + [view["S"][0]])
     out = dict(idx=idx, bad=[], n=0)
     d = tempfile.mkdtemp(prefix="verif-view-")
     try:
